@@ -265,6 +265,13 @@ func (svc *service) writeMessage(msg message.Message) (int, error) {
 	}
 	verifSvcYield(svc, "wm.checked")
 
+	// A message longer than the outgoing buffer can never be written: WriteWait would wait
+	// for room that cannot exist while holding the write mutex, blocking this and every
+	// later delivery to the connection for good. Refuse it.
+	if int64(l) > svc.out.size {
+		return 0, bufio.ErrBufferFull
+	}
+
 	// This is to serialize writes to the underlying buffer. Multiple goroutines could
 	// potentially get here because of calling Publish() or Subscribe() or other
 	// functions that will send messages. For example, if a message is received in
